@@ -84,10 +84,12 @@ def instances(tier, seed):
         t = src(s)
         if t in seen:
             continue
-        if tier == "quick" and any(x in t for x in ("GreedyRange(VarInt", "GreedyRange(ZigZag", "GreedyRange(Enum", "GreedyRange(FlagsEnum", "PrefixedArray(VarInt", "Array(2, ZigZag", "'b' / ZigZag")):
+        if tier == "quick" and any(x in t for x in ("GreedyRange(VarInt", "GreedyRange(ZigZag", "GreedyRange(Enum", "GreedyRange(FlagsEnum", "PrefixedArray(VarInt", "Array(2, ZigZag", "'b' / ZigZag",
+                                                    "GreedyRange(CString", "GreedyRange(Pascal", "PrefixedArray(Int8ub, CString", "PrefixedArray(Int8ub, Pascal", "Array(this.cnt, Pascal", "Array(this.cnt, CString", "PrefixedArray(Int8ub, FlagsEnum", "Array(this.cnt, FlagsEnum")):
             continue
         seen.add(t)
-        out.append(dict(name="gen  " + t, params=dict(kind="gen", spec=J(s), tier=tier)))
+        out.append(dict(name="gen  " + t, params=dict(kind="gen", spec=J(s), tier=tier, part="parse")))
+        out.append(dict(name="genb " + t, params=dict(kind="gen", spec=J(s), tier=tier, part="build")))
     for i, e in enumerate(expr_trees(tier, seed)):
         for j, u in enumerate(EXPR_USES):
             if tier == "quick" and (i + j) % 2 and i >= 16:
@@ -166,6 +168,14 @@ def harness(ctx, C, p):
     kw = {}
     if "_params.n" in source:
         kw["n"] = ctx.int("kw.n", 0, 3)
+    if kind == "gen" and p.get("part") == "build":
+        common.STRICT[0] = True
+        try:
+            val = domain(ctx, spec, "v", p["tier"])
+        finally:
+            common.STRICT[0] = False
+        _build_both(ctx, C, d, dc, val, kw, "build(domain value)")
+        return "built"
     lens = _lens(p.get("n", 6)) if kind != "gen" else _gen_lens(spec)
     if "Peek" in source:
         lens = [3, 6]          # look-ahead over truncated data is excluded by the property (compiled fields do not raise ConstructError on short reads)
@@ -189,13 +199,6 @@ def harness(ctx, C, p):
                 h["count"] = 200
                 stale["hdr"] = h
             _build_both(ctx, C, d, dc, stale, kw, "build(stale/extra keys)")
-    if kind == "gen":
-        common.STRICT[0] = True
-        try:
-            val = domain(ctx, spec, "v", p["tier"])
-        finally:
-            common.STRICT[0] = False
-        _build_both(ctx, C, d, dc, val, kw, "build(domain value)")
     return tag
 
 
